@@ -112,7 +112,7 @@ def stray_files(root):
     return out
 
 
-def audit(cfg, snaps, roots=(), loose=None):
+def audit(cfg, snaps, roots=(), loose=None, excused=()):
     """the property itself on the observed stores: [(signature, what)].  loose[si]: ids that sat unprotected in
     the directory when it was (re)opened under the local class and that no operation has added or covered since"""
     out = []
@@ -134,7 +134,7 @@ def audit(cfg, snaps, roots=(), loose=None):
                     ok = False
                 if not ok:
                     out.append(("C01:noncanonical-dir", f"store {si}: directory object {oid} is not a canonical listing"))
-            elif digest(alg, data) != oid:
+            elif digest(alg, data) != oid and (si, oid) not in excused:
                 out.append(("C01:misnamed-file", f"store {si} ({cls},{alg}): object {oid} holds bytes whose {alg} "
                             f"digest is {digest(alg, data)}"))
             if cls == "local" and mode != 0o444 and oid not in (loose[si] if loose else ()):
@@ -147,17 +147,45 @@ def audit(cfg, snaps, roots=(), loose=None):
 # generators
 
 
+# a directory next to a sibling whose name extends the directory's name by a character that sorts below '/':
+# ordering the entries by key tuple and ordering them by the joined relpath then differ
+SIBLINGS = [["data", "data.csv", "data-v2", "data v"], ["img", "img 2.png", "img.d"], ["a", "a.b", "a-b", "a b"]]
+
+
+def tput(t, key, val):
+    """add a file unless its path collides with an existing file or directory of the tree"""
+    parts = key.split("/")
+    for i in range(1, len(parts)):
+        if "/".join(parts[:i]) in t:
+            return
+    if key in t or any(k.startswith(key + "/") for k in t):
+        return
+    t[key] = val
+
+
 def gen_tree(rng, depth=0, maxfiles=5):
     t = {}
+    if depth < 2 and rng.random() < 0.35:
+        grp = rng.choice(SIBLINGS)
+        base = grp[0]
+        for n in rng.sample(["x.csv", "0", "z", "~"], rng.randint(1, 2)):
+            tput(t, base + "/" + n, pick(rng))  # the directory
+        for sib in rng.sample(grp[1:], rng.randint(1, 2)):
+            if rng.random() < 0.3:
+                tput(t, sib + "/" + rng.choice(["x.csv", "k"]), pick(rng))  # a sibling directory
+            else:
+                tput(t, sib, pick(rng))  # a sibling file
+        if rng.random() < 0.5:
+            return t
     names = rng.sample(NAMES, rng.randint(1, 4))
     for n in names:
-        if len(t) >= maxfiles:
+        if len(t) >= maxfiles + 2:
             break
         if depth < 2 and rng.random() < 0.3:
             for k, v in gen_tree(rng, depth + 1, 2).items():
-                t[n + "/" + k] = v
+                tput(t, n + "/" + k, v)
         else:
-            t[n] = pick(rng)
+            tput(t, n, pick(rng))
     return t
 
 
@@ -169,6 +197,53 @@ def gen_cfg(rng):
 
 def hx(b: bytes) -> str:
     return b.hex()
+
+
+def gen_rot(rng, cfg, snaps):
+    """an object of some store rots (preferably one that a same-algorithm partner store lacks)"""
+    n = len(cfg)
+    cands = []
+    for i in range(n):
+        for o, (d, _m) in snaps[i].items():
+            if not o.endswith(".dir"):
+                w = 3 if any(j != i and cfg[j][1] == cfg[i][1] and o not in snaps[j] for j in range(n)) else 1
+                cands += [(i, o, d)] * w
+    if not cands:
+        return None
+    i, o, d = rng.choice(sorted(cands))
+    new = rng.choice([d + b"!", b"rotten", b"", d[:-1] or b"?", b"x\r\ny\r\n"])
+    if new == d:
+        new = d + b"?"
+    return {"op": "rot", "store": i, "oid": o, "data": hx(new), "nonwf": True}
+
+
+def gen_after_rot(rng, cfg, snaps, rotted):
+    """after the rot: verifying transfers out of the damaged store (the rotten id, directories listing it, others),
+    and operations that do not read store objects"""
+    n = len(cfg)
+    si, oid = rotted
+    for _ in range(10):
+        r = rng.random()
+        if r < 0.7:
+            src = si if rng.random() < 0.8 else rng.randrange(n)
+            cands = [j for j in range(n) if j != src and cfg[j][1] == cfg[src][1]]
+            if not cands or not snaps[src]:
+                continue
+            pool = sorted(snaps[src])
+            ids = set(rng.sample(pool, min(len(pool), rng.randint(1, 3))))
+            if src == si and oid in snaps[src]:
+                ids.add(oid)
+            dirs = [o for o in pool if o.endswith(".dir")]
+            if dirs:
+                ids.update(rng.sample(dirs, min(len(dirs), 2)))
+            return {"op": "transfer", "src": src, "dst": rng.choice(cands), "ids": sorted(ids),
+                    "shallow": rng.random() < 0.2, "verify": True}
+        if r < 0.8:
+            j = rng.randrange(n)
+            return {"op": "reopen", "store": j, "cls": "base" if cfg[j][0] == "local" else "local"}
+        j = rng.randrange(n)
+        return {"op": "stage", "store": j, "file": hx(pick(rng))}
+    return {"op": "stage", "store": 0, "file": hx(b"A")}
 
 
 def gen_nonwf(rng, cfg, snaps):
@@ -266,7 +341,8 @@ def gen_op(rng, cfg, snaps, prev_ws=()):
                 ids.append("1" * 32 + ".dir")  # a directory id that is nowhere
             if not ids:
                 continue
-            return {"op": "transfer", "src": si, "dst": dst, "ids": sorted(set(ids)), "shallow": rng.random() < 0.3}
+            return {"op": "transfer", "src": si, "dst": dst, "ids": sorted(set(ids)), "shallow": rng.random() < 0.3,
+                    "verify": rng.random() < 0.3}
         if kind == "save":
             t = gen_tree(rng)
             if alg == "sha256":
@@ -347,10 +423,11 @@ def run_op(ctx, op, cfg, odbs, roots, ws_root, step, state=None, keep_ws=False):
         src, dst = op["src"], op["dst"]
         ids = {HashInfo(cfg[src][1], o) for o in op["ids"]}
         try:
-            transfer(odbs[src], odbs[dst], ids, shallow=op["shallow"])
+            transfer(odbs[src], odbs[dst], ids, shallow=op["shallow"], verify=bool(op.get("verify")))
         except Exception as exc:  # noqa: BLE001
             code = impl.err_code(exc)
-        term = ctor("OTransfer", str(src), str(dst), clist([cbytes(o) for o in op["ids"]]), cbool(op["shallow"]))
+        term = ctor("OTransfer", str(src), str(dst), clist([cbytes(o) for o in op["ids"]]), cbool(op["shallow"]),
+                    cbool(bool(op.get("verify"))))
     elif kind == "save":
         si = op["store"]
         alg = cfg[si][1]
@@ -403,6 +480,20 @@ def run_op(ctx, op, cfg, odbs, roots, ws_root, step, state=None, keep_ws=False):
         if not hard:
             ctx.count("env:migrate-without-hardlink")
         term = ctor("OMigrate", str(src), str(dst), clist([cbytes(o) for o in order]), cbool(hard))
+    elif kind == "rot":
+        # not a dvc-data operation: the bytes of an object change on disk (same inode, same mode)
+        si = op["store"]
+        pth = os.path.join(roots[si], op["oid"][:2], op["oid"][2:])
+        data = bytes.fromhex(op["data"])
+        if os.path.isfile(pth):
+            mode = stat.S_IMODE(os.lstat(pth).st_mode)
+            os.chmod(pth, 0o644)
+            with open(pth, "r+b") as f:
+                f.truncate(0)
+                f.write(data)
+            os.chmod(pth, mode)
+            extra.append(("rotten-inode", os.lstat(pth).st_ino))
+        term = ctor("ORot", str(si), cbytes(op["oid"]), cbytes(data))
     elif kind == "reopen":
         si = op["store"]
         kw = {"state": state} if state is not None else {}
@@ -452,7 +543,7 @@ def covered(op, code, cfg, before, after):
     return None, set()
 
 
-def run_history(ctx, cfg, ops=None, nsteps=0, malformed=False, shared_state=False):
+def run_history(ctx, cfg, ops=None, nsteps=0, malformed=False, shared_state=False, rot=False):
     """runs a history (given, or generated step by step) on fresh real stores.
     shared_state: all stores of the history share one real hash-state cache (State) and workspaces stay, so that
     re-staging an unchanged workspace meets a warm cache.
@@ -479,14 +570,28 @@ def run_history(ctx, cfg, ops=None, nsteps=0, malformed=False, shared_state=Fals
     total = len(ops) if ops is not None else nsteps
     use_state[0] = shared_state
     try:
-        for step in range(total + (1 if malformed else 0)):
-            if step == total:
+        rotten_inodes = set()
+        rotted = None
+        ntail = ctx.rng.randint(1, 3) if (rot and ops is None) else 0
+        for step in range(total + (1 if malformed else 0) + ((1 + ntail) if rot and ops is None else 0)):
+            if rot and ops is None and step >= total:
+                if step == total:
+                    op = gen_rot(ctx.rng, cfg, snaps)
+                    if op is None:
+                        break
+                    rotted = (op["store"], op["oid"])
+                else:
+                    op = gen_after_rot(ctx.rng, cfg, snaps, rotted)
+            elif step == total:
                 op = gen_nonwf(ctx.rng, cfg, snaps)
                 if op is None:
                     break
             else:
                 op = ops[step] if ops is not None else gen_op(ctx.rng, cfg, snaps, prev_ws if shared_state else ())
             code, term, extra = run_op(ctx, op, cfg, odbs, roots, root, step, state, keep_ws=shared_state)
+            for x in [e for e in extra if e[0] == "rotten-inode"]:
+                rotten_inodes.add(x[1])
+                extra.remove(x)
             new = [impl.walk_store(r) for r in roots]
             wf = 0 if op.get("nonwf") else 1  # Coq's wf_op_b must agree: the generator keeps WfOp unless it says otherwise
             exp.append(vL([vN(code), vN(wf), vL([delta_val(p, n) for p, n in zip(snaps, new)])]))
@@ -507,10 +612,18 @@ def run_history(ctx, cfg, ops=None, nsteps=0, malformed=False, shared_state=Fals
             done.append(op)
             terms.append(term)
             ctx.count("op:" + op["op"] + ("" if code == 0 else f":err{code}"))
-            if op.get("nonwf"):
+            if op.get("nonwf") and op["op"] != "rot":
                 ctx.count("nonwf:violates" if audit(cfg, snaps, roots) else "nonwf:harmless")
                 break  # the caller broke the contract: nothing is claimed about what follows
-            bad = extra + audit(cfg, snaps, roots, loose)
+            # objects whose inode an external event rewrote are excused (the damaged object itself and its hard
+            # links); nothing else may be misnamed - in particular nothing a verifying transfer let in
+            excused = set()
+            if rotten_inodes:
+                for si2, r in enumerate(roots):
+                    for o in snaps[si2]:
+                        if os.lstat(os.path.join(r, o[:2], o[2:])).st_ino in rotten_inodes:
+                            excused.add((si2, o))
+            bad = extra + audit(cfg, snaps, roots, loose, excused)
             if bad:
                 problems = [(s, w, step) for s, w in bad]
                 break
@@ -524,6 +637,8 @@ def run_history(ctx, cfg, ops=None, nsteps=0, malformed=False, shared_state=Fals
     impl.rm_rf(root)
     return case, inp, vL(exp), problems, changed, kinds
 
+
+_ROT_DIR = impl.dir_oid([("a", hashlib.md5(b"A").hexdigest()), ("d/b", hashlib.md5(b"B").hexdigest())])  # noqa: S324
 
 CORPUS = [
     # dos2unix twins in one directory, then migrate into a sha256 store and back-to-back transfer
@@ -547,6 +662,15 @@ CORPUS = [
              {"op": "save", "store": 1, "tree": {"p/q": hx(b"a\r\nb\r\n"), "r": hx(b"\r\n")}},
              {"op": "save", "store": 2, "tree": {"p/q": hx(b"a\r\nb\r\n"), "r": hx(b"\r\n")}, "ws": 2},
              {"op": "stage", "store": 0, "tree": {"p/q": hx(b"a\r\nb\r\n"), "r": hx(b"\r\n")}, "ws": 2}]},
+    # a remote object rots; a verifying fetch into a local store must not let it in (nor the directory listing it)
+    {"stores": [["local", "md5"], ["base", "md5"], ["local", "md5"]],
+     "ops": [{"op": "stage", "store": 0, "tree": {"a": hx(b"A"), "d/b": hx(b"B")}},
+             {"op": "transfer", "src": 0, "dst": 1, "ids": [_ROT_DIR], "shallow": False},
+             {"op": "rot", "store": 1, "oid": hashlib.md5(b"B").hexdigest(), "data": hx(b"rotten"), "nonwf": True},  # noqa: S324
+             {"op": "transfer", "src": 1, "dst": 2, "ids": [_ROT_DIR], "shallow": False, "verify": True},
+             {"op": "reopen", "store": 1, "cls": "local"},
+             {"op": "transfer", "src": 1, "dst": 2, "ids": [_ROT_DIR, hashlib.md5(b"B").hexdigest()],  # noqa: S324
+              "shallow": False, "verify": True}]},
     # a directory filled through the generic class, reopened under the local class: leftovers stay until an add
     # covers them - then they must be read-only (add protects every oid it is asked for, copied or present)
     {"stores": [["base", "md5"], ["local", "md5"]],
@@ -589,7 +713,10 @@ def run(ctx):
         # (no malformed tail with a shared State: after an untruthful add the cache vouches for the wrong name, the
         #  cache-free model is only claimed for WfOp histories)
         malformed = ops is None and ci % 5 == 4 and not shared
-        case, inp, exp, problems, changed, kinds = run_history(ctx, cfg, ops, nsteps, malformed, shared)
+        rot = ops is None and not shared and not malformed and ci % 3 == 0
+        case, inp, exp, problems, changed, kinds = run_history(ctx, cfg, ops, nsteps, malformed, shared, rot)
+        if rot:
+            ctx.count("stream:rot")
         if shared:
             ctx.count("stream:shared-state")
         if malformed and case["ops"] and case["ops"][-1].get("nonwf"):
